@@ -1058,6 +1058,9 @@ private:
         continue;
       s->closed = true;
       delEpoll(s->fd);
+      // Drop the fd's tag with the session it points to (as closeNow does): the
+      // fd number is reused after a restart and emplace keeps an existing key.
+      _fdTags.erase(s->fd);
       // SSL_shutdown before close(fd) — same ordering as closeNow
       if (s->ssl)
       {
